@@ -143,6 +143,25 @@ def cfg_impl(rules, cap=3, nslots=4, slotsize=3, labels=("a",), vals=("x",), max
             "INVARIANT OccupiedIsGroups\nINVARIANT NoDuplicateMembers\nPROPERTY RefinesSodg\nCHECK_DEADLOCK FALSE\n")
 
 
+def e1_ind(run, acc):
+    """the inductive invariant: TLC ties SodgImpl to SodgInd, Apalache (fixed sizes) and TLAPS (all sizes) show it inductive"""
+    # SodgImpl refines SodgInd (member lists as sets), whose invariant Apalache shows to be INDUCTIVE at 6 ids / 3 usable slots of 4:
+    # counter = recount, tags = lists, reserved lists kept, no underflow, and "vertices die only by the read of the last unread datum
+    # of their whole group" hold from every state satisfying the invariant, reachable within TLC's bounds or not
+    ri = vlib.model_check(run, "MC_ImplInd", cfg_impl("fixed").replace("PROPERTY RefinesSodg", "INVARIANT IndInvHolds\nPROPERTY RefinesInd"))
+    acc.add_e1("MC_ImplInd[fixed, 3 ids] (SodgImpl refines SodgInd)", ri)
+    rows, cached = vlib.apalache_ind(run)
+    acc.e1.append({"model": "SodgInd via APA_Ind[6 ids, 5 slots of 4], Apalache 0.58 (symbolic): Init => IndInv; IndInv /\\ Next => IndInv'; "
+                            "IndInv /\\ Next => DiesOnlyByLastRead; IndInv => NoUnderflow; two probes that must be violated",
+                   "obligations": rows, "from_cache": cached})
+    # ... and TLAPS proves them for ALL sizes (SodgIndProofs.tla: Spec => [](tags = lists /\ counter = recount), no underflow,
+    # vertices die only in data() as one whole member list that held exactly one unread datum, and conversely)
+    trows, tcached = vlib.tlaps_ind(run)
+    acc.e1.append({"model": "SodgIndProofs.tla, TLAPS (tlapm 1.6): TInvAlways, CInvAlways, NoUnderflowT, DiesAsAWholeList, ExactDeath for all "
+                            "capacities / slot counts / slot sizes; two probes whose proofs must fail",
+                   "runs": trows, "from_cache": tcached})
+
+
 def e1_impl(run, acc, tier):
     r = vlib.model_check(run, "SodgImpl", cfg_impl("fixed"))
     acc.add_e1("SodgImpl[fixed, 3 ids, 2 usable slots of 3] refines Sodg", r)
@@ -158,15 +177,7 @@ def e1_impl(run, acc, tier):
              "INVARIANT NoDuplicateMembers\nPROPERTY RefinesSodg\nCHECK_DEADLOCK FALSE\n")
     rr = vlib.model_check(run, "MC_ImplR", cfg_r)
     acc.add_e1("MC_ImplR[fixed, 5 ids restricted, 2 usable slots of 3] refines Sodg", rr)
-    # SodgImpl refines SodgInd (member lists as sets), whose invariant Apalache shows to be INDUCTIVE at 6 ids / 3 usable slots of 4:
-    # counter = recount, tags = lists, reserved lists kept, no underflow, and "vertices die only by the read of the last unread datum
-    # of their whole group" hold from every state satisfying the invariant, reachable within TLC's bounds or not
-    ri = vlib.model_check(run, "MC_ImplInd", cfg_impl("fixed").replace("PROPERTY RefinesSodg", "INVARIANT IndInvHolds\nPROPERTY RefinesInd"))
-    acc.add_e1("MC_ImplInd[fixed, 3 ids] (SodgImpl refines SodgInd)", ri)
-    rows, cached = vlib.apalache_ind(run)
-    acc.e1.append({"model": "SodgInd via APA_Ind[6 ids, 5 slots of 4], Apalache 0.58 (symbolic): Init => IndInv; IndInv /\\ Next => IndInv'; "
-                            "IndInv /\\ Next => DiesOnlyByLastRead; IndInv => NoUnderflow; two probes that must be violated",
-                   "obligations": rows, "from_cache": cached})
+    e1_ind(run, acc)
     if tier == "thorough":
         r3 = vlib.model_check(run, "SodgImpl", cfg_impl("fixed", cap=4, nslots=4, slotsize=3), timeout=3000)
         acc.add_e1("SodgImpl[fixed, 4 ids] refines Sodg", r3)
@@ -338,6 +349,7 @@ def plan_gc(run, prop, tier):
     s = vlib.seed()
     e1_sodg(run, acc, "A3")
     if prop == "C01":
+        e1_ind(run, acc)
         e1_safe(run, acc, "A3")
         e1_safe_r(run, acc, "F4a")
         e1_safe_r(run, acc, "F5")
@@ -1212,3 +1224,4 @@ def warm(run):
         vlib.emit_ts(run, "HexGen", f"INIT Init\nNEXT Next\nCONSTANTS MaxLen = 11 MaxIdx = 12 Mode = \"{mode}\"\nCHECK_DEADLOCK FALSE\n")
     vlib.emit_ts(run, "LabelGen", "INIT Init\nNEXT Next\nCONSTANTS Full = 4 LongLo = 5 LongHi = 10\nCHECK_DEADLOCK FALSE\n", timeout=3000)
     vlib.apalache_ind(run)
+    vlib.tlaps_ind(run)
